@@ -8,6 +8,7 @@ every op answers `<op specific> | <state dump>`.
 -/
 import OG.C14.Index
 import OG.C14.Align
+import OG.C14.Shared
 
 namespace OG.C14.Ix
 
@@ -164,3 +165,50 @@ def stepG (c : Option Cat) (ws : List String) : Option Cat × String :=
   | _, _ => (c, "bad-op")
 
 end OG.C14.Al
+
+namespace OG.C14.Sh
+
+/-- `s` ops — retention on shared storage:
+  s new <d> <gid:end:sid+sid…;…|-> <igid:end:iid+…;…|->
+  s tick <dt> | s alter <d> | s revert | s check
+`s check` answers `mark [gids] del [sids] idx [igids]`; every op appends ` | <dump>`. -/
+def parseIds (s : String) : Option (List (Nat × Bool)) :=
+  (Ix.listOf s "+").mapM fun x => (x.toNat?).map fun n => (n, false)
+
+def parseSG (s : String) : Option SG :=
+  match s.splitOn ":" with
+  | [gid, en, ids] => do some ⟨← gid.toNat?, ← en.toInt?, none, 0, ← parseIds ids⟩
+  | _ => none
+
+def parseIG (s : String) : Option IG :=
+  match s.splitOn ":" with
+  | [gid, en, ids] => do some ⟨← gid.toNat?, ← en.toInt?, false, ← parseIds ids⟩
+  | _ => none
+
+def dump (σ : St) : String :=
+  let sg := σ.sgs.map fun g => s!"{g.gid}:{Ix.bit g.deletedAt.isSome}:" ++ "+".intercalate (g.shards.map fun x => s!"{x.1}.{Ix.bit x.2}")
+  s!"d={σ.dur} sg=[{";".intercalate sg}] ig=[{Ix.joinNat (σ.igs.map (·.igid))}] gone=[{Ix.joinNat (Ix.sortNat σ.gone)}]"
+
+def stepS (σ : Option St) (ws : List String) : Option St × String :=
+  match σ, ws with
+  | _, ["new", d, sgs, igs] =>
+    match d.toInt?, (Ix.listOf sgs ";").mapM parseSG, (Ix.listOf igs ";").mapM parseIG with
+    | some d, some sgs, some igs => let σ := St.init 0 d sgs igs; (some σ, "ok | " ++ dump σ)
+    | _, _, _ => (σ, "bad-op")
+  | some σ, ["tick", dt] =>
+    match dt.toInt? with
+    | some dt => let σ := step σ (.tick dt); (some σ, "ok | " ++ dump σ)
+    | none => (some σ, "bad-op")
+  | some σ, ["alter", d] =>
+    match d.toInt? with
+    | some d => let σ := step σ (.alter d); (some σ, "ok | " ++ dump σ)
+    | none => (some σ, "bad-op")
+  | some σ, ["revert"] => let σ := step σ .revert; (some σ, "ok | " ++ dump σ)
+  | some σ, ["check"] =>
+    let σ' := step σ .check
+    let dels := (toDelete σ).flatMap (·.2)
+    let idx := (σ.igs.filter fun g => !(σ'.igs.any fun h => h.igid == g.igid)).map (·.igid)
+    (some σ', s!"mark [{Ix.joinNat (toMark σ)}] del [{Ix.joinNat dels}] idx [{Ix.joinNat idx}] | " ++ dump σ')
+  | _, _ => (σ, "bad-op")
+
+end OG.C14.Sh
